@@ -398,7 +398,6 @@ func runC10(c *h.Ctx) {
 	})
 }
 
-
 // pDupSingular walks the wire format and reports the first singular (non-repeated, non-map) field that occurs
 // more than once within one message.
 func pDupSingular(md protoreflect.MessageDescriptor, b []byte, path string) string {
